@@ -214,6 +214,19 @@ struct Gen {
     int step2 = (int)ch.range(2, 4); holes(sa, k, step2, (int)ch.pick((size_t)step2));   // (slots already freed are skipped by the executor)
     fill(k3, ch.chance(1, 2) ? "malloc" : "zalloc", cls, 1);
   }
+  // over-aligned blocks (interior pointers) in pages that a thread leaves behind: the main thread adopts the pages (forced collect, or the need for a
+  // fresh segment, or reclaim-on-free when that option is set), then uses the pointers locally: frees some, re-allocates the class, resizes others
+  void g_aligned_thread() {
+    static const std::vector<size_t> as = { 32, 64, 256, 1024, 4096, 4096 }; size_t a = ch.of(as), n = ch.range(1, 3000); size_t cls = mi_good_size(n + a - 1); size_t k = ch.range(2, 40), k2 = ch.range(2, 30);
+    if (next_slot + (int)(k + k2) > NSLOTS || live_bytes + (k + k2) * cls > 512*MiB) return;
+    int s0 = next_slot; next_slot += (int)k; out.push_back(Op("talloc").u("s", (uint64_t)s0).u("k", k).u("n", n).u("a", a)); for (size_t i = 0; i < k; i++) note_alloc(s0 + (int)i, n, a, 0, false, -1); groups.push_back({ s0, (int)k, n });
+    switch (ch.pick(3)) { case 0: out.push_back(Op("collect").u("force", 1)); break; case 1: { int s = new_slot(); if (s >= 0) { out.push_back(Op("alloc").u("s", (uint64_t)s).s("f", "malloc").u("n", 6*MiB).u("nt", 1)); note_alloc(s, 6*MiB, 1, 0, false, def); } break; } default: break; }
+    int step = (int)ch.range(2, 4); out.push_back(Op("rfree").u("s", (uint64_t)s0).u("k", k).u("step", (uint64_t)step).u("ph", ch.pick((size_t)step))); /* (generator bookkeeping: the freed ones) */
+    { Op& last = out.back(); for (int i = (int)last.num("ph"); i < (int)k; i += step) note_free(s0 + i); }
+    if (ch.chance(1, 2)) out.push_back(Op("collect").u("force", ch.chance(1, 2)));
+    int f0 = next_slot; next_slot += (int)k2; out.push_back(Op("fill").u("s", (uint64_t)f0).u("k", k2).s("f", "malloc").u("n", cls)); for (size_t i = 0; i < k2; i++) note_alloc(f0 + (int)i, cls, 1, 0, false, def); groups.push_back({ f0, (int)k2, cls });
+    out.push_back(Op("verify"));
+  }
   // a small size class cycling through its queue: page A fills up and goes to the full queue, a second page B becomes the head, a few frees bring A
   // back behind B, B is exhausted (-> full queue) while A serves again, B is emptied completely and released, another size class takes a fresh page
   // (possibly B's slot), and the class is allocated again: every step moves queue heads, the full queue and the direct small-size table
@@ -247,6 +260,7 @@ struct Gen {
     if (pf.big_ok + census_ok > 0 && nhuge < 3 && ch.chance(1, 16)) { n = ch.range(16*MiB + 1, 24*MiB); k = 1; }   // a huge block (own segment) left behind by a thread
     if (next_slot + (int)k > NSLOTS || live_bytes + k * n > 512*MiB) return; int s0 = next_slot; next_slot += (int)k;
     Op op("talloc"); op.u("s", (uint64_t)s0).u("k", k).u("n", n); if (ch.chance(1, 4)) op.s("f", "zalloc");
+    else if (k > 1 && n <= 8*KiB && ch.chance(1, 3)) { static const std::vector<size_t> as = { 32, 64, 256, 1024, 4096 }; op.u("a", ch.of(as)); }   // interior (over-allocated) pointers in pages the thread leaves behind
     else if (k == 1 && n <= 200*KiB && ch.chance(1, 3)) { static const std::vector<size_t> as = { 4096, 64*KiB, 4*MiB, 64*MiB, 64*MiB, 128*MiB }; op.u("a", ch.of(as)); }   // over-aligned block left behind (> 32 MiB: its segment comes straight from the OS) if (subprocs && ch.chance(1, 2)) op.u("sp", ch.pick(2)); out.push_back(op);
     for (size_t i = 0; i < k; i++) note_alloc(s0 + (int)i, n, 1, 0, false, -1);
     groups.push_back({ s0, (int)k, n });
@@ -328,7 +342,7 @@ struct Gen {
   void step() {
     std::vector<unsigned> w = { pf.w_alloc, pf.w_free, pf.w_realloc, pf.w_expand, pf.w_fill, pf.w_holes, pf.w_drain, pf.w_tfree, pf.w_talloc, pf.w_heap, pf.w_collect, pf.w_visit, pf.w_verify, pf.w_tick, pf.w_churn, pf.w_edge, pf.w_zchain, pf.w_defer };
     switch (ch.weighted(w)) {
-      case 0: g_alloc(); break; case 1: g_free(); break; case 2: g_realloc(); break; case 3: g_expand(); break; case 4: if (pf.p_aligned > 0 && ch.chance(1, 10)) g_aligned_page(); else if (pf.w_fill >= 6 && ch.chance(1, 12)) g_queue_cycle(); else g_fill(); break;
+      case 0: g_alloc(); break; case 1: g_free(); break; case 2: g_realloc(); break; case 3: g_expand(); break; case 4: if (pf.p_aligned >= 50 && pf.w_talloc > 0 && ch.chance(1, 8)) g_aligned_thread(); else if (pf.p_aligned > 0 && ch.chance(1, 10)) g_aligned_page(); else if (pf.w_fill >= 6 && ch.chance(1, 12)) g_queue_cycle(); else g_fill(); break;
       case 5: g_range_free("rfree", 0); break; case 6: g_range_free("rfree", 1); break; case 7: g_range_free("tfree", (int)ch.pick(2)); break; case 8: g_talloc(); break;
       case 9: if (pf.arenas && ch.chance(1, 6)) g_arena(); else g_heap(); break; case 10: g_collect(); break; case 11: g_visit(); break; case 12: out.push_back(Op("verify")); break;
       case 13: { static const std::vector<size_t> ms = { 1, 5, 11, 50, 101, 1000, 5000 }; out.push_back(Op("tick").u("ms", ch.of(ms))); break; }
